@@ -782,7 +782,7 @@ def prepare(tier):
             assert R.csv_pytext_representable(s), s
         for iso in ALPHA["us"][t]:
             assert iso is None or R.csv_datetime_representable(iso), iso
-    for bad in ["", "NA", "1", "true", "1.5", "-1e5", "inf", "2020-01-01", "12:00:00", "\r", " 1 "]:
+    for bad in ["", "NA", "1", "true", "1.5", "-1e5", "inf", "2020-01-01", "12:00:00", "\r", " 1 ", "0x10", "0X1F"]:
         assert not R.csv_text_representable(bad), bad
     assert not R.csv_datetime_representable(US_BINARY_EXTRA[0])
     from dataiter import util
